@@ -17,6 +17,12 @@ def run(tier, seed):
         for k in ks:
             recipes.append({"fn": "typing", "cls": cspec, "seq": gen.rotate(s, k), "twin": {"by": "rc"}})
         recipes.append({"fn": "typing", "cls": cspec, "seq": gen.rotate(gen.mutate(s, rng), rng.randrange(n)), "twin": {"by": "rc"}})
+        # ambiguity codes inside the record (N, R/Y, B/V, ...): whatever the class does with them, it does on both strands
+        amb = s
+        for _ in range(rng.randint(1, 2)):
+            i = rng.randrange(len(amb))
+            amb = amb[:i] + rng.choice("NRYSWKMBDHVnbv") + amb[i + 1:]
+        recipes.append({"fn": "typing", "cls": cspec, "seq": gen.rotate(amb, rng.randrange(n)), "twin": {"by": "rc"}})
         # a module typed as a vector and vice versa: both must be rejected on both strands
         other = dict(cspec, generic="vector" if cspec["generic"] == "module" else "module")
         recipes.append({"fn": "typing", "cls": other, "seq": gen.rotate(s, rng.randrange(n)), "twin": {"by": "rc"}})
